@@ -242,7 +242,8 @@ fn program_case(ctx: &mut Ctx, p: &Prog, xs: &[Vec<u64>]) -> CheckResult {
     let mut var_labels: Vec<u32> = p.input_labels.clone();
     for s in &p.steps {
         match s {
-            Step::Bin(_, a, _) | Step::Un(_, a) => var_labels.push(var_labels[*a]),
+            Step::Bin(op, a, b) => var_labels.push(crate::labels::binop_type(*op, var_labels[*a], var_labels[*b]).0),
+            Step::Un(op, a) => var_labels.push(if *op == 3 { crate::labels::neg_type(var_labels[*a]).0 } else { var_labels[*a] }),
             Step::Operation(_, _, n) => var_labels.extend(std::iter::repeat(1).take(*n)),
             Step::FnOp(_, _) => var_labels.push(0),
         }
